@@ -12,6 +12,7 @@ if pid == 0:
     os.environ["PATH"] = "/usr/bin:/bin"
     os.execv(cmd[0], cmd)
 buf = b""
+allbuf = b""
 idx = 0
 deadline = time.time() + 60
 status = None
@@ -25,6 +26,7 @@ while time.time() < deadline:
         if not data:
             break
         buf += data
+        allbuf += data
         while idx < len(responses) and responses[idx][0].encode() in buf:
             os.write(fd, responses[idx][1].encode() + b"\n")
             buf = buf[buf.index(responses[idx][0].encode()) + len(responses[idx][0]):]
@@ -40,4 +42,4 @@ if status is None:
     except ChildProcessError:
         status = 0
 code = os.waitstatus_to_exitcode(status) if hasattr(os, "waitstatus_to_exitcode") else (status >> 8)
-print(json.dumps({"exit": code, "typed": idx}))
+print(json.dumps({"exit": code, "typed": idx, "output": allbuf.decode("latin-1")[-4000:]}))
